@@ -117,6 +117,83 @@ CHECKS.update({
    note='cKDTree and the NumPy RNG are external.',
    technique='Lean 4 proof (sorting/permutation, Nodup index lemmas) + correspondence', design='6 C20'),
 })
+
+CHECKS.update({
+ 'C04': dict(
+   text='Theorems: under the coefficient layout that fit establishes, the model rebuilt from describe() (kriging, '
+        'fitted_model_function) is called with exactly the arguments of fitted_model/transform/data, and parameters '
+        'lists exactly those arguments (range, sill, shape, nugget); with the nugget disabled the reported nugget is 0 '
+        'and the call passes nugget 0; rss = n*mse; counter-example for the pre-repair manual layout (D6). Tie: the '
+        'implementation\'s cof goes through the model (describe / parameters / rebuilt arguments compared), all callable '
+        'views incl. OrdinaryKriging.gamma_model and VariogramEstimator.predict are evaluated on a lag grid, metrics '
+        'against their documented definitions.',
+   note='View equality is compared at 1e-10; sums of models are checked on the implementation only.',
+   technique='Lean 4 proof (case analysis over the coefficient layouts) + correspondence', design='6 C04'),
+ 'C05': dict(
+   text='Theorems: the bounds table generated from __get_fit_bounds equals the documented bounds for all six models, '
+        'nugget factor 0.99, lower bound 0, p0 = upper bound; filtering x, y, sigma with one NaN mask keeps the triples '
+        'aligned; values at NaN positions do not influence what reaches the optimiser; counter-example for the '
+        'unfiltered sigma (D5). Tie: translator (bounds) + recording of what reaches curve_fit vs the model. Local '
+        'optimality is VALIDATED numerically by restarts (not proved).',
+   note='scipy.optimize.curve_fit is external: only its inputs, bounds and the local optimality of its output are checked '
+        '(objective decrease relative to the weighted total sum of squares). Known finding D13 (stable, shape -> 0).',
+   technique='Lean 4 proof (finite table by decide, list lemmas) + translator + recorded-input correspondence', design='6 C05'),
+ 'C06': dict(
+   text='Theorem for ALL finite histories of assignments and interleaved reads: in the taint-tracking cache machine every '
+        'setter and lazy read preserves "no filled cache is inconsistent with a setting it depends on", provided the '
+        'setter invalidation table covers the dependency relation; the table EXTRACTED FROM THE SOURCE on every run is '
+        'shown to cover it by decide (minus the listed gap use_nugget -> cof), hence every read equals a fresh instance; '
+        'the gap is witnessed. Tie: translator (invalidation sets per setter incl. understood guards) + after every '
+        'operation the pattern of filled private caches vs the model + every read vs a freshly built instance.',
+   note='Known findings D7, D8-ii/iii/iv (resolution of maxlag at assignment time is not a cache of the model). '
+        'fit_method="manual" is outside the alphabet.',
+   technique='Lean 4 proof (invariant by induction over operation histories; decide on the generated table) + translator + history correspondence', design='6 C06'),
+ 'C12': dict(
+   text='Theorems about the definitions generated from DirectionalVariogram.py: the stored pair angle is the polar angle '
+        'of the pair vector; compass mask <=> distance of theta+azimuth to the nearest multiple of pi <= tolerance/2; '
+        'triangle mask additionally |dx sin a + dy cos a| <= bandwidth/2 (perpendicular offset); swapping the two points '
+        'changes the angle by +-pi and leaves both criteria unchanged; lag classes of the masked grouping = lag classes of '
+        'the selected pairs. Tie: translator + Float twin of the generated masks on the implementation\'s per-pair data + '
+        'independent dot/cross-product oracle + C01/C02 models on the selected pairs.',
+   note='Pairs within 1e-7 deg / 1e-9 of the tolerance / bandwidth boundary are excluded as the property allows.',
+   technique='Lean 4 proof over the reals (trigonometric identities, rounding to the nearest multiple of pi) of generated definitions', design='6 C12'),
+ 'C13': dict(
+   text='Theorems: tolerance 180 selects every pair; azimuth+180 gives the same angle and band criteria; joint rotation of '
+        'coordinates (theta+phi mod 2pi) and azimuth (-phi) leaves them unchanged; for m sectors of width pi/m every '
+        'direction lies in at least one sector. Tie: metamorphic runs on the implementation.',
+   note='Cases with a pair within 1e-7 deg of a sector boundary are excluded.',
+   technique='Lean 4 proof over the reals (periodicity of the distance to pi*Z, rounding argument) + metamorphic correspondence', design='6 C13'),
+ 'C14': dict(
+   text='Theorems: per-axis grouping uses open-closed intervals (loop spec by induction); table entry i*nt+j is the '
+        'estimator over exactly the differences of space class i and time class j (flatMap/index arithmetic); marginals '
+        'are the corresponding column / row. Tie: implementation table, groups and marginals vs the model on the '
+        'implementation\'s own distances and edges + brute-force oracle.',
+   note='', technique='Lean 4 proof (induction, index arithmetic) + exact-rational correspondence', design='6 C14'),
+ 'C15': dict(
+   text='Theorems: generated sum / product / product-sum formulas are the documented combinations; every sample pairs '
+        'table entry k = i*nt+j with the lags of its own cell; NaN cells are dropped; counter-example for the time-major '
+        'pairing (D2); the source flattens the transposed grids. Tie: translator + recording of curve_fit inputs vs the '
+        'model; fitted_model vs formula; optimality by restart (validated).',
+   note='curve_fit optimality is validated, not proved.',
+   technique='Lean 4 proof (ring identities, index lemmas) + translator + recorded-input correspondence', design='6 C15'),
+ 'C18': dict(
+   text='Theorems: if every stored field is a private copy and every array handed out is a copy then, for all sequences '
+        'of caller-side writes, what the instance reports does not change; a clone owns everything and reports what the '
+        'original reports; the ownership table extracted from the source stores values, coordinates, kriging values as '
+        'copies and returns a copy of the lag edges. Tie: translator + np.shares_memory + differential runs under caller '
+        'mutation, clone / pickle round trips, seeded runs in two fresh processes.',
+   note='copy.deepcopy, pickle and process-level determinism are runtime behaviour the model cannot exhibit: validated '
+        'differentially only (partial).',
+   technique='Lean 4 proof (store model, induction over operation sequences; decide on the generated table) + translator + differential correspondence', design='6 C18'),
+ 'C19': dict(
+   text='Theorems: lower <= median <= upper for every q in [0,100]; lowering q never narrows an interval (quantile '
+        'monotonicity incl. out-of-range levels); identical members give three equal bounds; counter-examples for the '
+        'truncated level (D12) and the re-read resolved maxlag (D11). Tie: Monte-Carlo members re-created independently, '
+        'their percentiles taken by the model and compared with propagate; reproducibility, zero-noise identity, source '
+        'snapshot before/after.',
+   note='Known finding D11. NumPy Generator stream is external.',
+   technique='Lean 4 proof (quantile monotonicity) + correspondence', design='6 C19'),
+})
 NOT_YET = {}
 ALL = ['C%02d' % i for i in range(1, 21)]
 
